@@ -128,7 +128,7 @@ def fl_design(name, rng):
 def index_design(name, rng):
   """reads through signal-valued indices (also when the indexed object is then sliced / a field is taken / a second index
   follows), writes to signal-indexed targets, and lists of signals iterated by bare name up to 3 levels deep"""
-  v = rng.randrange(6)
+  v = rng.randrange(8)
   L = ['s.a = InPort( 2 )', 's.d = InPort( 8 )', 's.sel = Wire( 2 )', 's.row = Wire( 1 )', 's.col = Wire( 1 )', 's.out = OutPort( 8 )',
        '@update', 'def up_sel():', '  s.sel @= s.a ^ 1', '@update', 'def up_row():', '  s.row @= s.a[1]', '@update', 'def up_col():', '  s.col @= s.a[0]']
   if v == 0:
@@ -139,6 +139,11 @@ def index_design(name, rng):
     L += ['s.tbl = [ [ InPort( 8 ) for _ in range(2) ] for _ in range(2) ]', '@update', 'def up_tbl():', '  s.out @= s.tbl[ s.row ][ s.col ]']
   elif v == 3:
     L += ['s.i4 = [ InPort( 8 ) for _ in range(4) ]', '@update', 'def up_mux():', '  s.out @= zext( s.i4[ s.sel ][2:6], 8 )']
+  elif v == 6:   # a loop whose BOUND is a signal computed in this cycle
+    L += ['@update', 'def up_cnt():', '  t = Bits8( 0 )', f'  for i in range( s.sel{rng.choice(["", " + 1"])} ):', '    t = t + s.d', '  s.out @= t']
+  elif v == 7:   # a loop over a list of signals through enumerate / zip
+    L += ['s.vals = [ Wire( 8 ) for _ in range(3) ]', '@update', 'def up_vals():', '  for i in range(3):', '    s.vals[i] @= s.d + zext( s.sel, 8 ) + i',
+          '@update', 'def up_acc():', '  t = Bits8( 0 )', f'  for {rng.choice(["i, x in enumerate( s.vals )", "x, y in zip( s.vals, s.vals )"])}:', '    t = t + x', '  s.out @= t']
   elif v == 4:
     L += ['s.w8 = Wire( 8 )', '@update', 'def up_bit():', '  s.w8 @= 0', '  s.w8[ zext( s.sel, 3 ) + 1 ] @= s.d[0]', '@update', 'def up_o():', '  s.out @= s.w8']
   else:
@@ -353,7 +358,7 @@ def run(ctx):
       ctx.violation(f'C02:design-crash:{W}:{R}:{wk}:{rk}:{ex}:{type(e).__name__}', f'shaped design ({W} written by {wk}, {R} read by {rk}, {ex}) failed: {type(e).__name__}: {str(e)[:200]}',
                     {'design_source': src, 'traceback': traceback.format_exc()[-1500:]})
   # random larger designs
-  for j in range(40 if quick else 200):
+  for j in range(28 if quick else 200):
     g = sc.Gen(random.Random(rng.randrange(1 << 30)), f'R{j}', size=rng.choice(['medium', 'large'])).build()
     cls, _ = sc.load_source(ctx, g.source(), g.name)
     check_orders(ctx, g.name, g.source(), cls, variants, coq_cases, coq_meta)
@@ -375,7 +380,7 @@ def run(ctx):
       ctx.hist['family:blocking-method'] = ctx.hist.get('family:blocking-method', 0) + 1
     except Exception as e:
       ctx.violation(f'C02:fl-design-crash:{type(e).__name__}', f'FL design failed: {type(e).__name__}: {str(e)[:200]}', {'design_source': src, 'traceback': traceback.format_exc()[-1500:]})
-  for j in range(12 if quick else 80):
+  for j in range(20 if quick else 120):
     src = index_design(f'IX{j}', rng)
     try:
       cls, _ = sc.load_source(ctx, src, f'IX{j}')
